@@ -64,4 +64,22 @@ def EncVar.unit (e : EncVar) (p : PU) : Rat :=
   | some x => x.2
   | none => 0
 
+/-! ## The detail file of a solution (`encoding/csv.DecisionVariableMarshaler`, `OutputLevel = Detail`)
+
+One row per encodeable variable: name, `Value`, unit of measure, then ONE cell per planning unit of the solution
+(`Solution.PlanningUnits` = the model's `PlanningUnits()`, in that order).  `planningUnitValueList` fills the cell of unit
+`p` with 0 and then overwrites it with every listed entry of that unit in turn (no `break`): the LAST listed figure. -/
+
+/-- the inner loop of `planningUnitValueList` for one planning unit -/
+def unitLast (l : List (PU × Rat)) (p : PU) : Rat :=
+  l.foldl (fun acc x => if x.1 = p then x.2 else acc) 0
+
+/-- the planning-unit cells of the variable's row in `…-NameMappedVariables.csv` (as numbers; the text is
+`strings.Converter` formatting at the variable's precision) -/
+def detailCells (e : EncVar) (pus : List PU) : List Rat := pus.map (unitLast e.perUnit)
+
+/-- the numeric content of the whole detail file: per variable its `Value` and its planning-unit cells -/
+def detailRows (units : List PU) (pus : List PU) (s : State) : List (VarId × Rat × List Rat) :=
+  (solutionVariables units s).map fun e => (e.id, e.value, detailCells e pus)
+
 end Crem.Catchment
